@@ -95,9 +95,11 @@ class XYCostFunction_GaussApproximation(CostFunction_GaussApproximation):
         self._MODEL_NAME = "y_model"
         if axes_to_use.lower() == "y":
             self._COV_MAT_CHOLESKY_NAME = "y_total_cov_mat_cholesky"
+            self._COV_MAT_NAME = "y_total_cov_mat"
             self._ERROR_NAME = "y_total_error"
         elif axes_to_use.lower() == "xy":
             self._COV_MAT_CHOLESKY_NAME = "total_cov_mat_cholesky"
+            self._COV_MAT_NAME = "total_cov_mat"
             self._ERROR_NAME = "total_error"
         else:
             raise ValueError("Unknown value '%s' for 'axes_to_use': must be one of ('xy', 'y')")
